@@ -12,6 +12,10 @@ CHECKS = {
             "Reference-model monitor: ~3k (quick) / ~100k (thorough) seeded, type-directed, well-typed programs are analysed by the real analyzer, compiled and run on the VM with an effect-logging host; effects, outcome class/kind/message are compared with an independent reference evaluator of the source-level semantics, plus the residue invariant (operand stack, frames, memory pointer, handlers all zero at exit) observed through the core-exit hook. Held on the executions produced; constructs poisoned by open findings are only exercised by tagged cases.",
             "Trusts the reference evaluator harness/prog/eval.go as the reading of the semantics listed in C01; float text rendering is mirrored, not specified.",
             "runtime monitoring: generated programs vs executable reference model + residue invariant hook", "prog-gen+model", "DESIGN.md §3 C01"),
+    "C03": ("exploration",
+            "Accept/reject monitor of the real analyzer: 57 hand-written marked base programs, 300 (quick) / 3000 (thorough) generated well-typed programs and the accepted corpus must get no error-level diagnostic and the expression types the generator recorded; one mutator per static rule of the property (operand, operator, argument, arity, return, assignment, condition, branch, iterator, unknown name, loop control, duplicates, global initialiser, implicit any, impl vs template, trigger, main, casts, spawn) is applied at every marked position (~125k mutants quick) and every mutant must get at least one error; doubtful mutants are dropped and counted.",
+            "Well-typedness of base programs is the harness's reading of the rules (README + property text); mutants the harness is unsure about are dropped, never flagged.",
+            "runtime monitoring: rule x position mutation catalogue + generated well-typed programs against the real analyzer", "mutate", "DESIGN.md §3 C03"),
     "C04": ("translation_validation",
             "Differential monitor: the C01 program stream (shared fragment) and the shipped tests/examples are run by the tree-walking interpreter and by compiler+VM with identical hosts; outputs and outcome class/kind/message are compared pairwise, interpreter non-termination is decided by a step budget derived from the reference model. Known interpreter divergences are pinned as findings with narrow signatures and hazard tags computed by static analysis of the generated program.",
             "The fragment boundary (spawn, triggers, templates, `->`) is excluded by design; comparison is of host-visible text and outcome only.",
@@ -56,6 +60,10 @@ CHECKS = {
             "Algebraic-law monitor on both value libraries and via generated programs: reflexivity/symmetry/transitivity of equality and agreement with structural equality, clone equality and independence under mutation histories checked against a shadow model, JSON round trips under the value's type, and identical Display text of the same abstract value built in both libraries.",
             "Trusts harness/valuni structEq and the shadow mutation model; the interpreter library has no Clone so copy laws are checked on the VM library.",
             "runtime monitoring: algebraic laws + shadow-model mutation histories over a value universe", "valuni", "DESIGN.md §3 C13"),
+    "C16": ("exploration",
+            "History monitor against a sequential model: seeded histories of 5-60 host invocations (SpawnSync, ~10% SpawnAsync+Wait+HandleTermination) of a 53-function service program on one VM, incl. calls that return from loops/try blocks, throw, hit fatal errors, spawn threads, and calls after failures; after every call the result (value and dynamic type) is compared with a sequential Go model of the service, and residue (operand stack, frames, memory pointer, handlers via the core-exit hook), the core list, the core-list lock (TryLock, so a leaked lock is detected without blocking) and goroutines inside Core.Run are checked.",
+            "After a failed call any failure answer is accepted (the shared context is cancelled by design), a successful answer must equal the model; concurrent host calls are outside the statement.",
+            "runtime monitoring: invocation histories vs sequential state-machine model + residue/lock/goroutine invariants", "histories", "DESIGN.md §3 C16"),
     "C17": ("exploration",
             "Concurrency monitor under the Go race detector: seeded programs spawning 1-8 cores (nested spawns, late spawns, a failing core) run with GOMAXPROCS in {1,2,4,16} and seed-determined yield plans injected at the VM's scheduling points (wait lock-upgrade gap, spawn, globals lock) through the yield hook; oracle: no race report with a /repo frame, every output line exactly once and whole, spawn-time argument values echoed, every fin(id) event before the wait-returned event (logical clock), the failing core's fatal interrupt returned, and the recorded history of global reads/writes linearizable per global (porcupine register model, 20 s timeout = inconclusive).",
             "Schedules are sampled, not enumerated; evidence reports the distinct interleavings observed.",
@@ -64,6 +72,14 @@ CHECKS = {
             "Exhaustive cross product of type instances x every member the real analyzer lists (table read from ast.<Type>.Fields() at run time) x boundary argument tuples: key-set inclusion through the Go API in both value libraries, generated one-line programs run on both backends in crash-isolated workers, results checked for survival, advertised type and against a small reference model of the index-taking members and indexing.",
             "The member table follows the analyzer at run time; the reference model of member results is harness code (props/c18/model.go).",
             "runtime monitoring: exhaustive member x argument matrix on both runtimes vs reference model", "member-matrix", "DESIGN.md §3 C18"),
+    "C19": ("translation_validation",
+            "Round-trip monitor: for the shipped corpus, generated programs, ~140 hand-written printer-coverage programs and ~28 optimizer programs, each printer (parser AST, analysed tree) output is re-parsed and must be accepted, behave identically on the VM (effects + outcome) and be a fixed point after one round; optimizer output is compiled and run (VM and interpreter) and compared with the unoptimised run.",
+            "Behaviour comparison is of host-visible effects and outcome; programs whose two plain runs differ are skipped.",
+            "runtime monitoring: print/re-parse/run differential + fixed-point check + optimizer differential", "roundtrip", "DESIGN.md §3 C19"),
+    "C20": ("exploration",
+            "Metamorphic monitor of the semantic fuzzer: class-restricted generated programs and the shipped examples are transformed with seeds 0..S and 1/2/3/5 passes exactly like cmd/ does; every variant must be accepted by the analyzer and produce the same VM effects and outcome under limits 2048/500/100000; a panic inside Transform is an event; a printer-baseline check (0 passes) separates printer defects (C19) from fuzzer defects.",
+            "The program class follows the property text (side-effect-free reordered operands, small non-negative right factors, literals far from overflow/rounding boundaries).",
+            "runtime monitoring: metamorphic differential execution of transformer variants", "metamorphic", "DESIGN.md §3 C20"),
 }
 
 NOT_APPLICABLE_REASON = "check not built yet in this session (see DESIGN.md §3 for the planned monitor); not claimed until it runs silently on the unchanged tree"
